@@ -993,7 +993,7 @@ impl Property for C01 {
     fn generate(&mut self, ctx: &Ctx, rng: &mut Rng) -> Vec<String> {
         let mut cases = vec![];
         // exhaustive small scope
-        let mut push_all = |alpha: &[Op], reads: &[Op], setup: bool, maxlen: usize, cases: &mut Vec<String>, count: &mut u64| {
+        let push_all = |alpha: &[Op], reads: &[Op], setup: bool, maxlen: usize, cases: &mut Vec<String>, count: &mut u64| {
             for len in 1..=maxlen {
                 'seq: for s in all_seqs(alpha.len(), len) {
                     // a `}` with no group open ends the run: keep it only as the last op
